@@ -120,7 +120,7 @@ def _gen_worker(job):
                       inputs={k: str(v) for k, v in ob.inputs.items()}, note=ob.note))
     return dict(target=target, result=r, obligations=obs, abstracted=sorted(eng.abstracted),
                 assumed=sorted(eng.assumed_contracts), theories=sorted(eng.used_theories),
-                gen_time=time.time() - t0)
+                called=sorted(eng.called_contracts), gen_time=time.time() - t0)
   except Exception:
     # an exception of the VC generator on (possibly edited) source means "this function is outside the front end":
     # undecided for that function, never a crash of the whole check (bounded-tier results must still be reported)
@@ -268,6 +268,23 @@ def main(argv=None):
     g_async = [pool.apply_async(_ground_worker, ((i,),)) for i in gidx]
     t_gen0 = time.time()
     gens = pool.map(_gen_worker, [(t, prop) for t in targets], chunksize=1)
+    # dependency closure: a proof here is modular, so the property also rests on the contract of every callee reached
+    # from its functions.  Callee contracts that this property's tags do not select are verified too, with ALL their
+    # clauses (prop = None), transitively - a change inside a shared helper is then noticed by every property above it.
+    dep_targets = []
+    if not args.only and not os.environ.get("VERIF_NO_DEPS"):
+      seen = set(targets)
+      frontier = gens
+      while True:
+        new = sorted({t for g in frontier for t in g.get("called", []) if t not in seen and t in C.REGISTRY
+                      and not t.endswith(".__fields__")})
+        if not new:
+          break
+        seen.update(new)
+        dep_targets += new
+        frontier = pool.map(_gen_worker, [(t, None) for t in new], chunksize=1)
+        gens += frontier
+      targets = targets + dep_targets
     used = sorted({t.split(":", 1)[1] for g in gens for t in g.get("theories", []) if t.startswith("lemma:")})
     done_l = set()
     while True:      # lemmas may use lemmas
@@ -458,8 +475,9 @@ def main(argv=None):
       assumptions.append("library theory: " + t)
     for a in g["abstracted"]:
       assumptions.append(f"abstracted in {g['target'].split('::')[1]}: {a}")
-  assumptions += ["callee contracts are used modularly: clauses of callees tagged with other properties are proved "
-                  "under those properties' checks",
+  assumptions += ["callee contracts are used modularly; every callee contract reached from this property's functions is "
+                  "verified in this run as well (dependency closure, all clauses): " +
+                  (", ".join(t.split("::")[1] for t in dep_targets) if dep_targets else "none beyond the property's own"),
                   "Python ints are mathematical integers (exact); z3 5.1 / cvc5 1.4 / this VC generator are trusted",
                   "implicit exceptions other than those listed in a total contract are not modelled "
                   "(MemoryError, RecursionError, KeyboardInterrupt)"]
